@@ -378,10 +378,11 @@ def c16(ctx):
         run_harness_on(ctx, "h_prng.c", builds[:1], ["--mode", "budget", "--p1", L, "--p3", NR], 16, timeout=3000, hname="h_prng-b")
         run_harness_on(ctx, "h_prng.c", builds[1:], ["--mode", "budget", "--p1", 5, "--p3", NR // 10], 16, timeout=3000, hname="h_prng-b")
     else:
-        run_harness_on(ctx, "h_prng.c", builds, ["--mode", "budget", "--p1", L, "--p3", NR], 16, timeout=3000, hname="h_prng-b")
+        run_harness_on(ctx, "h_prng.c", builds[:1], ["--mode", "budget", "--p1", L, "--p3", NR], 16, timeout=3000, hname="h_prng-b")
+        run_harness_on(ctx, "h_prng.c", builds[1:], ["--mode", "budget", "--p1", L, "--p3", NR // 5], 16, timeout=3000, hname="h_prng-b")
     ctx.rule = ("(a) ALL operation sequences of length <= L over the alphabet {gen 1, gen 32, gen 33, gen 100, feed, reseed, limit 0, limit 1, limit 33, "
                 "limit 64} (sum 10^k), each followed by a 1200-byte drain; (b) random runs of 5..44 operations with limits {0,1,31,32,33,64,100,1024,4096,"
-                "65536,3000,1 MiB,1 MiB+1,SIZE_MAX} and generate sizes up to 70000 (every 16th run up to 5 MiB). Monitor: bytes emitted since the last "
+                "65536,3000,1 MiB,1 MiB+1,SIZE_MAX} and generate sizes up to 70000 (every 17th run up to 5 MiB). Monitor: bytes emitted since the last "
                 "entropy request (callback event; its byte offset inside generate is recovered from a sentinel pre-fill) never exceed 32*max(1,ceil(min(limit,"
                 "1 MiB)/32)) for the limit in force, evaluated after every non-empty emitted segment. Twin monitor: a byte copy of the state with one extra "
                 "feed requests entropy no later than the original. class = sequence index.")
